@@ -120,26 +120,7 @@ Theorem c05_batch_to_primary : forall cfg st g b,
 Proof. exact batch_to_primary. Qed.
 Print Assumptions c05_batch_to_primary.
 
-(** * Concrete statements *)
-Definition cfg_split (preads : bool) : settings :=
-  {| s_parser := true; s_splitting := true; s_primary_reads := preads; s_default_role := None |}.
-Definition st_replica : rstate := {| active_role := Some Replica; o_parser := None; o_preads := None |}.
-
-Definition sel : query := MkQuery [] [] (BSelect false) false.                 (* SELECT 1 *)
-Definition sel_for_update : query := MkQuery [] [] (BSelect false) true.       (* SELECT .. FOR UPDATE *)
-Definition sel_into : query := MkQuery [] [] (BSelect true) false.             (* SELECT * INTO t2 FROM t *)
-Definition insert_cte : query :=                                               (* WITH x AS (INSERT .. RETURNING ..) SELECT .. FROM x *)
-  MkQuery [MkQuery [] [] BInsert false] [] (BSelect false) false.
-Definition paren_lock : query := MkQuery [] [] (BNested sel_for_update) false. (* (SELECT .. FOR UPDATE) *)
-Definition cte_lock : query := MkQuery [sel_for_update] [] (BSelect false) false. (* WITH x AS (SELECT .. FOR UPDATE) SELECT .. *)
-Definition derived_lock : query := MkQuery [] [sel_for_update] (BSelect false) false. (* SELECT * FROM (SELECT .. FOR UPDATE) s *)
-Definition union_into : query := MkQuery [] [] (BSetOp (BSelect true) (BSelect false)) false. (* SELECT * INTO t2 FROM t UNION SELECT .. *)
-Definition with_insert : query := MkQuery [sel] [] BInsert false.              (* WITH x AS (SELECT 1) INSERT INTO t SELECT * FROM x *)
-Definition read_cte_union : query :=                                           (* WITH x AS (SELECT 1) (SELECT ..) UNION VALUES (1) *)
-  MkQuery [sel] [sel] (BSetOp (BNested sel) BValues) false.
-
-Definition role_after (preads : bool) (ss : list stmt) : option role :=
-  active_role (fst (infer (cfg_split preads) st_replica ss)).
+(** * Concrete statements (definitions in Spec.v) *)
 
 (** The three witnesses of the former defect F3 (fixed in bd1691c) and the four of its
     follow-up (fixed in 8b40d89) go to the primary; so does every order of write / read. *)
@@ -184,7 +165,6 @@ Example c05_reads :
 Proof. vm_compute. repeat split. Qed.
 
 (** * What is NOT recomputed (the previous role is used as it stands) *)
-Definition st_primary : rstate := {| active_role := Some Primary; o_parser := None; o_preads := None |}.
 
 Example c05_stale_role_cases :
   (* the parser rejects the SQL (e.g. VACUUM, LOCK TABLE, a DELETE in a CTE): role unchanged *)
@@ -207,12 +187,7 @@ Theorem c05_batch_refuted :
   (* earlier: Parse s7 (INSERT) ... ; now, after a plain SELECT: Bind s7, Execute, Sync *)
   batch_has_write [(7, Some [SOther])] [BBind 7; BOther] = true /\
   active_role (client_route (cfg_split false) st_replica (IBatch [BBind 7; BOther])) = Some Replica.
-Proof.
-  split; [|vm_compute; repeat split].
-  exists (cfg_split false), st_primary, [],
-    [BParse 1 (PAcc quiet [SOther]); BBind 1; BOther; BParse 2 (PAcc quiet [SQuery sel]); BBind 2; BOther].
-  vm_compute. repeat split; discriminate.
-Qed.
+Proof. exact batch_refuted. Qed.
 Print Assumptions c05_batch_refuted.
 
 Example c05_batch_std_example :
@@ -249,4 +224,13 @@ Example c05_pool_examples :
   pool_get 2 (DShard 0) (fun a => role_eqb (a_role a) Primary) (Some 0) (Some Replica) pool2 = [GAllDown] /\
   pool_get 2 (DShard 0) all_up (Some 2) (Some Primary) pool2 = [GInvalidShard] /\
   role_matches Replica None = true /\ role_matches Replica (Some Primary) = false /\ role_matches Mirror None = true.
+Proof. vm_compute. repeat split. Qed.
+
+(** Known class F23 lives below the model: for [SELECT * FROM (TABLE t FOR UPDATE) AS d]
+    sqlparser 0.52 delivers this lock-free AST (parse_as_table swallows [FOR UPDATE]); on
+    it the code and the model rightly answer "plain read".  Only the monitor, which works
+    from the generator's label, sees the lost lock. *)
+Example c05_f23_delivered_ast_is_plain :
+  let q := MkQuery [] [MkQuery [] [] BTable false] (BSelect false) false in
+  plain_query q = true /\ role_after false [SQuery q] = Some Replica.
 Proof. vm_compute. repeat split. Qed.
